@@ -6,8 +6,8 @@ from lib import common as C
 GEN = ['ComputeL', 'MultiplyBasis']
 TRUSTED = ['the formal (dual-number) derivative of a polynomial expression is its analytic derivative (textbook differentiation rules)',
            'inspect.getsource-based output detection of @simple (generated functions are written to a real module file)']
-ASSUMPTIONS = ['the Coq model covers the ring fragment of the DSL (inputs, numbers, nested shifts, .ss, unary minus, + - *); division, powers, '
-               'log/exp and applied functions are checked by the oracle (central differences of impulse_nonlinear) only',
+ASSUMPTIONS = ['the Coq model covers inputs, numbers, nested shifts, .ss, unary minus, + - *, division (all scalar/accumulator combinations) and positive integer powers; '
+               'real exponents, number ** expr, log/exp and applied functions are checked by the oracle (central differences of impulse_nonlinear) only',
                'coefficients are exact integers in the correspondence; the 1e-14 threshold is modelled as "== 0"',
                'finite-path window theorem (eval_td with horizon T vs the infinite semantics) is not proved; the oracle compares inside the window']
 HEADER = ('From Coq Require Import ZArith List.\nFrom SSJ Require Import Model.Sparse Model.SimpleBlk.\nImport ListNotations.\nOpen Scope Z_scope.\n')
@@ -122,6 +122,89 @@ def coq(e):
     if k == 'ss':
         return f'(ESs {coq(e[1])})'
     raise ValueError(k)
+
+
+def coq_q(e):
+    """Gallina term over Qc (numbers are exact dyadic floats)"""
+    from fractions import Fraction
+    k = e[0]
+    if k == 'var':
+        return f'(EVar {e[1]}%nat)'
+    if k == 'num':
+        fr = Fraction(e[1])
+        return f'(ENum (qn {C.zs(fr.numerator)} {fr.denominator}%positive))'
+    if k in ('add', 'sub', 'mul', 'div'):
+        return f'({dict(add="EAdd", sub="ESub", mul="EMul", div="EDiv")[k]} {coq_q(e[1])} {coq_q(e[2])})'
+    if k == 'neg':
+        return f'(ENeg {coq_q(e[1])})'
+    if k == 'shift':
+        return f'(EShift {C.zs(e[1])} {coq_q(e[2])})'
+    if k == 'ss':
+        return f'(ESs {coq_q(e[1])})'
+    if k == 'pow':
+        return f'(EPow {coq_q(e[1])} {int(e[2]) - 1}%nat)'
+    raise ValueError(k)
+
+
+POW2 = [1.0, 2.0, 4.0, 0.5, -2.0, -1.0, 0.25, -0.5]
+
+
+def gen_p2(rng, pvars, depth):
+    """expression all of whose values (steady state and every date of every path) are +-2^k: a legal divisor with exact float arithmetic"""
+    if depth == 0 or rng.random() < 0.3:
+        return ('var', rng.choice(pvars)) if rng.random() < 0.75 else ('num', rng.choice([2.0, 0.5, -2.0, 4.0, -1.0]), 'float')
+    op = rng.choice(['mul', 'neg', 'shift', 'div', 'pow', 'ss'])
+    if op in ('mul', 'div'):
+        return (op, gen_p2(rng, pvars, depth - 1), gen_p2(rng, pvars, depth - 1))
+    if op == 'neg':
+        return ('neg', gen_p2(rng, pvars, depth - 1))
+    if op == 'pow':
+        return ('pow', wrap_p2(rng, pvars, gen_p2(rng, pvars, depth - 1)), 2)
+    inner = wrap_p2(rng, pvars, gen_p2(rng, pvars, depth - 1))
+    return ('shift', rng.choice([-2, -1, 1, 2]), inner) if op == 'shift' else ('ss', inner)
+
+
+def wrap_p2(rng, pvars, e):
+    """make sure the expression is a wrapped object (can be shifted / .ss'd / raised to a power) while staying a power of two"""
+    return e if has_var(e) else ('mul', ('var', rng.choice(pvars)), e)
+
+
+def gen_q(rng, nin, pvars, depth, need_var=False):
+    """general expression over dyadic values with division by power-of-two-valued sub-expressions and integer powers"""
+    if depth == 0 or (rng.random() < 0.2 and not need_var):
+        if need_var or rng.random() < 0.7:
+            return ('var', rng.randrange(nin))
+        return ('num', rng.choice([1.0, 2.0, 3.0, -1.0, 0.5, -1.5]), 'float')
+    op = rng.choice(['add', 'sub', 'mul', 'neg', 'shift', 'ss', 'div', 'div', 'div', 'pow', 'cdiv'])
+    if op in ('add', 'sub', 'mul'):
+        return (op, gen_q(rng, nin, pvars, depth - 1, need_var and rng.random() < 0.5), gen_q(rng, nin, pvars, depth - 1, need_var))
+    if op == 'neg':
+        return ('neg', gen_q(rng, nin, pvars, depth - 1, need_var))
+    if op == 'div':
+        return ('div', gen_q(rng, nin, pvars, depth - 1, need_var), gen_p2(rng, pvars, min(depth - 1, 2)))
+    if op == 'cdiv':        # number / expression
+        return ('div', ('num', rng.choice([1.0, 3.0, -2.0]), 'float'), gen_p2(rng, pvars, min(depth - 1, 2)))
+    inner = objectify_q(rng, nin, gen_q(rng, nin, pvars, depth - 1, need_var=True))
+    if op == 'pow':
+        return ('pow', inner, rng.choice([2, 2, 3]))
+    return ('shift', rng.choice([-2, -1, 1, 2]), inner) if op == 'shift' else ('ss', inner)
+
+
+def objectify_q(rng, nin, e):
+    return e if has_var(e) else ('add', e, ('var', rng.randrange(nin)))
+
+
+def gen_div_block(rng):
+    nin = rng.randint(2, 3)
+    pvars = sorted(rng.sample(range(nin), rng.randint(1, nin - 1)))
+    T = rng.randint(4, 7)
+    outs = [fix_left(objectify_q(rng, nin, gen_q(rng, nin, pvars, rng.randint(2, 4), need_var=True))) for _ in range(rng.randint(1, 2))]
+    ss = [rng.choice(POW2) if i in pvars else rng.choice([1.5, -0.75, 3.0, 0.25, 2.0, -1.0]) for i in range(nin)]
+    shocked = [i for i in range(nin) if rng.random() < 0.7] or [0]
+    # LEVELS of the shocked paths: powers of two for divisor variables, small dyadics otherwise
+    levels = {i: [rng.choice(POW2) if i in pvars else rng.choice([1.0, -0.5, 2.5, 0.75, -2.0, 3.0]) for _ in range(T)] for i in shocked}
+    return dict(nin=nin, outs=outs, T=T, ss=ss, ssi=list(ss), use_ssi=False, shocked=shocked, pvars=pvars, levels=levels,
+                paths={i: [v - ss[i] for v in levels[i]] for i in shocked})
 
 
 def ref_eval(e, env, ss, ssi, T, t):
@@ -294,10 +377,47 @@ def correspondence(ctx):
             got, ok, model = f'raised {type(ex).__name__}: {ex}', False, None
         if not ok:
             dis.append(dict(what='SimpleBlock steady_state/jacobian/impulse_nonlinear', case=dict(b, src=[py(e) for e in b['outs']]), impl=got, model=model))
+    # programs with division and integer powers: dyadic data, divisors restricted to power-of-two-valued sub-expressions so that the
+    # floating-point evaluation is exact; model evaluated over the rationals (Qc)
+    from fractions import Fraction
+    nq = n // 3
+    qblocks = [gen_div_block(rng) for _ in range(nq)]
+    qmod = write_module(f'corrq_{ctx["seed"]}_{ctx["tier"]}', qblocks)
+    qf = lambda v: (lambda fr: f'(qn {C.zs(fr.numerator)} {fr.denominator}%positive)')(Fraction(v))
+    qexprs = []
+    for b in qblocks:
+        paths = C.coq_list([b['levels'].get(i, []) for i in range(b['nin'])], lambda p: C.coq_list(p, qf))
+        qexprs.append(f'run_block_q {b["nin"]}%nat {C.coq_list(b["ss"], qf)} {C.coq_list(b["ssi"], qf)} {paths} {b["T"]} ' + C.coq_list(b['outs'], coq_q))
+    qhdr = 'From Coq Require Import ZArith QArith Qcanon List.\nFrom SSJ Require Import Model.Sparse Model.SimpleBlk Model.SimpleBlkQ.\nImport ListNotations.\nOpen Scope Z_scope.\n'
+    qvals, qlogs = C.eval_in_coq('C02', qhdr, qexprs, chunk=50, tag='q')
+    stats['with_division'] = 0
+    fr = lambda v: [Fraction(float(v)).numerator, Fraction(float(v)).denominator]
+    for k, (b, vm) in enumerate(zip(qblocks, qvals)):
+        distinct.add(C.canon([b['outs'], b['ss']]))
+        stats['with_division'] += int('div' in str(b['outs']))
+        try:
+            ssv, jac, imp = run_block_impl(getattr(qmod, f'blk{k}'), b)
+            got = dict(ss=[fr(v) for v in ssv], jac=[[None if e is None else [[el[0], el[1]] + fr(el[2]) for el in e] for e in row] for row in jac],
+                       imp=None if imp is None else [[fr(v + s) for v in row] for row, s in zip(imp, ssv)])
+            if vm is None:
+                ok, model = False, None
+            else:
+                unopt = lambda e: None if e is None else (e[1] if isinstance(e, tuple) and len(e) == 2 and e[0] == 'Some' else e)
+                model = dict(ss=[[int(x[0]), int(x[1])] for x in vm[0]],
+                             jac=[[None if unopt(e) is None else sorted([[int(el[0]), int(el[1]), int(el[2][0]), int(el[2][1])] for el in unopt(e)]) for e in row] for row in vm[1]],
+                             imp=[[[int(x[0]), int(x[1])] for x in row] for row in vm[2]])
+                ok = got['ss'] == model['ss'] and got['jac'] == model['jac'] and (got['imp'] is None or got['imp'] == model['imp'])
+        except Exception as ex:
+            got, ok, model = f'raised {type(ex).__name__}: {ex}', False, None
+        if not ok:
+            dis.append(dict(what='SimpleBlock with division/powers: steady_state/jacobian/impulse_nonlinear vs the rational model', case=dict(b, src=[py(e) for e in b['outs']]), impl=got, model=model))
+    blocks = blocks + qblocks
+    logs = logs + qlogs
     for l in logs:
         dis.append(dict(what='coq evaluation failed', log=l))
     return dict(evaluations=len(blocks), distinct_nontrivial=len(distinct),
-                rule='grammar-generated @simple programs (ring fragment, depth<=4, shifts |k|<=3 incl. nested, .ss, python int/float literals, '
+                rule='grammar-generated @simple programs with division (expr/expr, number/expr, expr/number) and integer powers over dyadic data, divisors power-of-two valued '
+                     'so that float arithmetic is exact, compared exactly with the model over the rationals; grammar-generated @simple programs (ring fragment, depth<=4, shifts |k|<=3 incl. nested, .ss, python int/float literals, '
                      '1-3 inputs of which a random subset is shocked with integer paths, 35% with a distinct initial steady state, T 4..9): '
                      'steady state, Jacobian elements and nonlinear paths compared exactly with the model',
                 samples=[[py(e) for e in blocks[0]['outs']], [py(e) for e in blocks[1]['outs']]], disagreements=dis, stats=stats)
